@@ -158,6 +158,10 @@ def run(ctx: Ctx):
 
     for _ in pipeline.run_pipeline(ctx, want):
         pass
+    from . import pipeline_trace
+
+    ctx.extra["manager_executions_validated_as_traces"] = pipeline_trace.run(
+        ctx, n=150 if ctx.quick else 3000, want=lambda rendering, clause: clause.startswith(("manager-filter", "critical-filter", "raised")))
     ctx.rule = (
         "TLC evaluates the filter predicate of Filter.tla on every object of a lattice x label x attribute x confidence x point-count x uuid grid, "
         "as estimate and as ground truth, against x/y-box, distance-ring and label-only parameter sets (kept-exactly, order, idempotence, widening, "
